@@ -19,7 +19,7 @@ type c03 struct{}
 func (c03) ID() string    { return "C03" }
 func (c03) Level() string { return "exploration" }
 func (c03) Rule() string {
-	return "grammar products, each complete within its domain: ports [IP:][HOST[-HOST]:]CONTAINER[-CONTAINER][/PROTO] (4 IPs x 5 host forms x 3 container forms x 4 protocols + bare integers; ranges starting at 15 (container, host) bases (quick: reduced IP / protocol forms off the first base; thorough: full product) incl. every decimal-width boundary 9|10 .. 9999|10000); volumes [SOURCE:]TARGET[:MODE,...] (9 sources x 3 targets x mode sets of <=2 from 8); devices SRC[:DST[:PERM]]; secrets/configs by name; build string; env_file / label_file string, list, long; depends_on and networks lists; every short / long pair also as the later layer (override file, own attributes of an extending service) on top of an earlier layer that says more; extra_hosts and build.extra_hosts: every list spelling (= and :, 4 address forms incl. bracketed IPv6) against every mapping spelling (scalar and list value); extends string; healthcheck test string; external {name}; KEY[=VALUE] lists vs mappings (6 value kinds x 4 key shapes: plain, x- prefixed, dotted, mixed) at 8 service positions and on the labels of every resource kind; string-or-list at 6 positions; command/entrypoint strings over <=3 (thorough: 4) words from 10 word shapes (plain, single/double quoted, escaped blank, empty, words containing no-break space, ideographic space, vertical tab, form feed); durations and byte sizes against numeric literals; each short form loaded next to the reference long form written from the specification grammar and compared on the whole project; near misses must be errors. distinct = distinct short-form strings"
+	return "grammar products, each complete within its domain: ports [IP:][HOST[-HOST]:]CONTAINER[-CONTAINER][/PROTO] (4 IPs x 5 host forms x 3 container forms x 4 protocols + bare integers; ranges starting at 15 (container, host) bases (quick: reduced IP / protocol forms off the first base; thorough: full product) incl. every decimal-width boundary 9|10 .. 9999|10000); volumes [SOURCE:]TARGET[:MODE,...] (9 sources x 3 targets x mode sets of <=2 from 8); devices SRC[:DST[:PERM]]; secrets/configs by name; build string; env_file / label_file string, list, long; depends_on and networks lists; every short / long pair also as the later layer (override file, own attributes of an extending service) on top of an earlier layer that says more; extra_hosts and build.extra_hosts: every list spelling (= and :, 4 address forms incl. bracketed IPv6) against every mapping spelling (scalar and list value); extends string; healthcheck test string; external {name}; KEY[=VALUE] lists vs mappings (6 value kinds x 4 key shapes: plain, x- prefixed, dotted, mixed) at 8 service positions and on the labels of every resource kind; string-or-list at 6 positions; command/entrypoint strings over <=3 (thorough: 4) words from 10 word shapes (plain, single/double quoted, escaped blank, empty, words containing no-break space, ideographic space, vertical tab, form feed); durations and byte sizes against numeric literals (byte sizes as the product of 7 amounts - leading zeros, beyond 2^53 - x 6 units x 9 attributes, other number notations refused); each short form loaded next to the reference long form written from the specification grammar and compared on the whole project; near misses must be errors. distinct = distinct short-form strings"
 }
 func (c03) Assumptions() []string {
 	return []string{
@@ -262,7 +262,9 @@ func c03isPath(src string) bool {
 func c03volumes() []c03case {
 	var out []c03case
 	// (also the shortest member of every path class: bare ~, .., /, ./ ; and volume names containing what paths start with)
-	sources := []string{"", "named", "./r", "../r", ".", "/abs", "~/h", `C:\w`, `\\.\pipe\p`, "~", "..", "/", "./", "na.me", "n~", "n-a_me"}
+	sources := []string{"", "named", "./r", "../r", ".", "/abs", "~/h", `C:\w`, `\\.\pipe\p`, "~", "..", "/", "./", "na.me", "n~", "n-a_me",
+		// sources that are one or two characters long, the characters taking more than one byte
+		"€", "é", "日本", "€x"}
 	targets := []string{"/t", "/t/", "/t/../u"}
 	modes := []string{"ro", "rw", "z", "Z", "nocopy", "shared", "rslave", "rprivate"}
 	var modeSets [][]string
@@ -340,7 +342,13 @@ func c03volumes() []c03case {
 						sb.WriteString("        volume: {}\n")
 					}
 				}
-				out = append(out, c03case{id: "volumes/" + spec, short: "    volumes: [" + yq(spec) + "]\n", long: sb.String(), kind: kind})
+				cs := c03case{id: "volumes/" + spec, short: "    volumes: [" + yq(spec) + "]\n", long: sb.String(), kind: kind}
+				if !bind && src != "" && src != "named" {
+					// a volume name: declared, so that the reference long form loads
+					cs.top = strings.Replace(c03skeleton, "  named: {}\n", "  named: {}\n  "+yq(src)+": {}\n", 1)
+					cs.topL = cs.top
+				}
+				out = append(out, cs)
 			}
 		}
 	}
@@ -526,6 +534,39 @@ func c03misc(quick bool) []c03case {
 		eq("bytes/shm_size/"+b[0], "    shm_size: "+b[0]+"\n", "    shm_size: \""+b[1]+"\"\n")
 	}
 	bad("bytes/bad", "    mem_limit: 1x\n")
+	// the byte-size grammar as a product: amount (incl. leading zeros and integers beyond 2^53) x unit x every attribute
+	// that takes a byte size; the text form equals the integer it denotes; other number notations are not byte sizes
+	{
+		attrs := []struct{ name, pre, post string }{
+			{"mem_limit", "    mem_limit: ", "\n"}, {"mem_reservation", "    mem_reservation: ", "\n"}, {"memswap_limit", "    memswap_limit: ", "\n"},
+			{"shm_size", "    shm_size: ", "\n"}, {"build.shm_size", "    build:\n      context: .\n      shm_size: ", "\n"},
+			{"deploy.limits.memory", "    deploy:\n      resources:\n        limits:\n          memory: ", "\n"},
+			{"deploy.reservations.memory", "    deploy:\n      resources:\n        reservations:\n          memory: ", "\n"},
+			{"tmpfs.size", "    volumes:\n      - {type: tmpfs, target: /t, tmpfs: {size: ", "}}\n"},
+			{"blkio.rate", "    blkio_config:\n      device_read_bps:\n        - {path: /dev/sda, rate: ", "}\n"},
+		}
+		amounts := []struct {
+			text string
+			val  uint64
+		}{{"0", 0}, {"1", 1}, {"100", 100}, {"0100", 100}, {"007", 7}, {"9007199254740993", 9007199254740993}, {"9223372036854775807", 9223372036854775807}}
+		units := []struct {
+			text string
+			mul  uint64
+		}{{"", 1}, {"b", 1}, {"k", 1 << 10}, {"kb", 1 << 10}, {"m", 1 << 20}, {"g", 1 << 30}}
+		for _, a := range attrs {
+			for _, am := range amounts {
+				for _, u := range units {
+					if am.val > 1<<40 && u.text != "" {
+						continue // amounts of that size only as plain digits (with a unit the library goes through floating point)
+					}
+					eq("bytes/"+a.name+"/"+am.text+u.text, a.pre+"\""+am.text+u.text+"\""+a.post, a.pre+fmt.Sprint(am.val*u.mul)+a.post)
+				}
+			}
+			for _, nm := range []string{"0x10", "0b11", "0o17"} {
+				bad("bytes/"+a.name+"/bad/"+nm, a.pre+"\""+nm+"\""+a.post)
+			}
+		}
+	}
 	// ssh: list vs mapping
 	eq("ssh/list", "    build:\n      context: .\n      ssh: [default, \"k=/p\"]\n", "    build:\n      context: .\n      ssh: {default: , k: /p}\n")
 	bad("ssh/bad", "    build:\n      context: .\n      ssh: [k]\n")
